@@ -43,7 +43,7 @@ func Minimise(p *Profile, v Violation) Violation {
 			cand := append(append([]core.Op(nil), ops[:i]...), ops[i+1:]...)
 			if w := try(cand); w != nil {
 				ops = cand
-				best.Ops, best.Detail = cand, w.Detail
+				best.Ops, best.Detail, best.Atoms, best.Tags = cand, w.Detail, w.Atoms, w.Tags
 				changed = true
 				break
 			}
@@ -63,7 +63,7 @@ func Minimise(p *Profile, v Violation) Violation {
 				cand[oi] = o
 				if w := try(cand); w != nil {
 					ops = cand
-					best.Ops, best.Detail = cand, w.Detail
+					best.Ops, best.Detail, best.Atoms, best.Tags = cand, w.Detail, w.Atoms, w.Tags
 					shrunk = true
 					break
 				}
@@ -80,7 +80,7 @@ func Minimise(p *Profile, v Violation) Violation {
 			cand[oi].SameMs = false
 			if w := try(cand); w != nil {
 				ops = cand
-				best.Ops, best.Detail = cand, w.Detail
+				best.Ops, best.Detail, best.Atoms, best.Tags = cand, w.Detail, w.Atoms, w.Tags
 			}
 		}
 	}
